@@ -402,6 +402,63 @@ func TestVerifC05CLI(t *testing.T) {
 			}
 		}
 	}
+	// two VARIANTS of one sample indexed in one run: the same function name, the same structure (and
+	// fingerprint), other embedded strings; and the freshly written database scanned through the
+	// DEFAULT path (the command re-executes itself as a worker on a private copy of the database)
+	if sh, n := vh.Shard(); sh == 2%n {
+		d := filepath.Join(scratch, "cli-variants")
+		variant := func(c2, ua string) string {
+			return "package main\n\nimport \"os\"\n\nfunc beacon() string {\n\thost := \"" + c2 + "\"\n\tif len(os.Args) > 1 {\n\t\treturn host + \"/" + ua + "\"\n\t}\n\treturn host\n}\n\nfunc main() { _ = beacon() }\n"
+		}
+		files := map[string]string{"v1/main.go": variant("c2.alpha.example:443", "agent-one"), "v2/main.go": variant("198.51.100.77:8443", "updater-two-long")}
+		for rel, c := range files {
+			os.MkdirAll(filepath.Dir(filepath.Join(d, "tree", rel)), 0o755)
+			os.WriteFile(filepath.Join(d, "tree", rel), []byte(c), 0o644)
+		}
+		for _, ext := range []string{".db", ".json"} {
+			db := filepath.Join(d, "sigs"+ext)
+			if out, err := exec.Command(sfw, "index", "--name", "FAM", "--db", db, filepath.Join(d, "tree")).CombinedOutput(); err != nil {
+				r.Fail("sfw index (variants): %v\n%s", err, out)
+				return
+			}
+			for _, rel := range []string{"v1/main.go", "v2/main.go"} {
+				for _, mode := range [][]string{{"--no-sandbox", "--threshold", "1.0"}, {"--no-sandbox", "--exact"}, {"--threshold", "1.0"}} {
+					args := append(append([]string{"scan", "--db", db}, mode...), filepath.Join(d, "tree", rel))
+					cmd := exec.Command(sfw, args...)
+					cmd.Env = append(os.Environ(), "SFW_SANDBOX_ID=")
+					var stdout, stderr strings.Builder
+					cmd.Stdout, cmd.Stderr = &stdout, &stderr
+					rerr := cmd.Run()
+					r.Eval()
+					key := fmt.Sprintf("cli/variants/%s/%s/%s", ext, rel, strings.Join(mode, ""))
+					var so struct {
+						Alerts []detection.ScanResult `json:"alerts"`
+					}
+					if jerr := json.Unmarshal([]byte(stdout.String()), &so); jerr != nil {
+						if mode[0] != "--no-sandbox" {
+							// the default path needs a sandbox runtime or its fallback: not judged when it cannot run here
+							r.Count("default_path_scans_not_possible_here", 1)
+							continue
+						}
+						r.Violate(key+"/scan-failed", fmt.Sprintf("sfw %v produced no report (exit: %v)", args, rerr), nil)
+						continue
+					}
+					r.Nontrivial(key)
+					found := false
+					var seen []string
+					for _, al := range so.Alerts {
+						seen = append(seen, fmt.Sprintf("%s/%s/%v", al.MatchedFunction, al.SignatureName, al.Confidence))
+						if al.MatchedFunction == "beacon" && al.SignatureName == "FAM_beacon" && al.Confidence == 1.0 {
+							found = true
+						}
+					}
+					if !found {
+						r.Violate(key, fmt.Sprintf("v1/main.go and v2/main.go (the same beacon() with other embedded strings) indexed in one run; sfw scan %v of %s on the %s back end raises no alert FAM_beacon with confidence 1.0 for beacon; alerts: %v", mode, rel, ext, seen), nil)
+					}
+				}
+			}
+		}
+	}
 	bases := progfam.Bases()
 	pick := map[string]bool{"upcount": true, "strings": true, "crosspkg": true, "deferrecover": true, "panic": true, "nestedloops": true, "switch": true, "bigconst": true}
 	idx := 0
